@@ -350,7 +350,7 @@ func (s *Session) replayObligation(prop string, o *Obligation) (bool, map[string
 			if last == nil {
 				last = map[string]interface{}{}
 			}
-			last["note"] = "replay budget of this run exhausted (150 s): no further inputs were tried"
+			last["note"] = "replay budget of this run exhausted (100 s): no further inputs were tried"
 			return false, last
 		}
 		ok, det := s.replayOnce(prop, o, prev)
@@ -389,7 +389,7 @@ var replayStartOnce sync.Once
 
 func replayBudgetExhausted() bool {
 	replayStartOnce.Do(func() { replayStart = time.Now() })
-	return time.Since(replayStart) > 150*time.Second
+	return time.Since(replayStart) > 100*time.Second
 }
 
 func undecidableRequires(ct *Contract) bool {
